@@ -153,7 +153,7 @@ func TestC16_DeleteKeepsOthers(t *testing.T) {
 	r := evid.Get(id)
 	evid.Finish(t, r)
 	r.SetRule("rapid: node-lite histories over 2-4 files that share chunks, are chunk-aligned prefixes of each other or repeat chunks (uploads, partial/complete cached downloads, pins, reads, restarts) with deletions through DELETE /aurora/{ref} and evictions through synchronous GC runs; oracle at every delete/eviction: every other file that was fully readable from the local store before is still byte-identical afterwards, and every chunk of the removed file that is unpinned and belongs to no other file the node knows is gone; non-trivial = a surviving readable file shares a chunk with the removed file; distinct by hash of the case")
-	evid.Checks(40)
+	evid.Checks(100)
 	rapid.Check(t, func(t *rapid.T) {
 		c := nlhist.Gen(t, nlhist.GenOptions{MaxFiles: 4, MaxOps: 16, Kinds: kinds, MaxBlocks: 2})
 		sig, err, st := run(c)
